@@ -222,6 +222,27 @@ func C14(r *eng.Run) {
 			checkCompose(w, 0, true, c1.Bytes(), int32(ref.MinQ-1), cell+"+1")
 		}
 	})
+	// zero-padded coefficients: a short value in a long slice (the size paths must key on the stripped length)
+	r.Par(len(shapes), func(w *eng.W, i int) {
+		if i%3 != 0 && !r.Thorough() {
+			return
+		}
+		cb := shapes[i].Bytes()
+		for _, total := range []int{16, 17, 24, 31, 32, 33, 34, 48, 64, 65, 100, 300} {
+			if total <= len(cb) {
+				continue
+			}
+			sig := append(make([]byte, total-len(cb)), cb...)
+			var es []int32
+			for d := -2; d <= 37; d++ {
+				es = append(es, int32(ref.MaxQ+d), int32(ref.MinQ-d))
+			}
+			es = append(es, 0, -1, 1, 3000, -3000)
+			for _, e := range es {
+				checkCompose(w, 0, i%2 == 1, sig, e, "zero-padded")
+			}
+		}
+	})
 	r.Seq(func(w *eng.W) {
 		for form := 0; form < 256; form++ {
 			for _, sig := range [][]byte{nil, {}, {0}, {0, 0, 0}, {1}, {0, 5}} {
@@ -233,7 +254,7 @@ func C14(r *eng.Run) {
 		}
 	})
 	r.Phase("A2 arbitrary parts", t0, nil)
-	r.Require("compose/representable/le16", "compose/representable/le32", "compose/representable/big", "compose/unrepresentable/le16", "compose/unrepresentable/big", "compose/unknown-form", "compose/inf", "compose/nan")
+	r.Require("compose/representable/le16", "compose/representable/le32", "compose/representable/big", "compose/unrepresentable/le16", "compose/unrepresentable/big", "compose/unknown-form", "compose/inf", "compose/nan", "compose/representable/zero-padded", "compose/unrepresentable/zero-padded")
 }
 
 func sameValueParts(coef []byte, exp int, v ref.Val) bool {
